@@ -3,7 +3,7 @@ from typing import Any
 
 from lxml import etree
 
-from xsdata.exceptions import XmlHandlerError
+from xsdata.exceptions import ParserError, XmlHandlerError
 from xsdata.formats.dataclass.parsers.mixins import XmlHandler, delay_end_events
 from xsdata.models.enums import EventType
 
@@ -102,5 +102,9 @@ class LxmlEventHandler(XmlHandler):
                 self.parser.register_namespace(ns_map, prefix or None, uri)
             else:
                 raise XmlHandlerError(f"Unhandled event: `{event}`.")
+
+        if self.queue:
+            # The recovering parser gave up before the root element ended
+            raise ParserError("Unexpected end of document")
 
         return self.objects[-1][1] if self.objects else None
